@@ -1,6 +1,7 @@
 /-
   Layer `Note`, invariant family X: `nsync_note_expiry` is the minimum of the deadlines on the path
-  to the root, unless the note was born notified (known finding F5).
+  to the root (ghost `pathMin`), for every note `nsync_note_new` has returned — born notified or not
+  (the code after the repair of F5).
 -/
 import NsyncVerif.Proofs.NoteInvS4
 
@@ -10,7 +11,7 @@ namespace Note
 
 /-- The ghost minimum of a note being created, given its intended parent. -/
 def NewX (s : State) (n : NoteId) (par : Option NoteId) (dl : Dl) : Prop :=
-  s.pathMin n = s.minOf dl par ∧ s.bornNotified n = false ∧
+  s.pathMin n = s.minOf dl par ∧
   ∀ p, par = some p → s.published p = true ∧ (s.notes p).allocated = true
 
 def DKX (s : State) (n : NoteId) : DK → Prop
@@ -23,26 +24,24 @@ def NKX (s : State) (n : NoteId) : NK → Prop
 
 /-- `nsync_note_new` is done with the expiry time. -/
 def DoneX (s : State) (n : NoteId) : Prop :=
-  s.bornNotified n = true ∨ (s.notes n).expiry = s.pathMin n
+  (s.notes n).expiry = s.pathMin n
 
 def XClaim (s : State) : PC → Prop
   | .newMalloc par _ => ∀ p, par = some p → s.published p = true ∧ (s.notes p).allocated = true
   | .dl _ n _ dk => DKX s n dk
   | .nfy _ n _ nk => NKX s n nk
   | .chd _ _ top => NKX s top.n top.k
-  | .newP pos n p dl => if pos.early then NewX s n (some p) dl else DoneX s n
+  | .newP _ n _ _ => DoneX s n
   | .retNew n _ => DoneX s n
   | .retExpiry n => s.published n = true
   | _ => True
 
 structure InvX (s : State) : Prop where
   claim : ∀ t, XClaim s (s.pc t)
-  min : ∀ n, s.published n = true → s.bornNotified n = false →
-    (s.notes n).expiry = s.pathMin n
-  unalloc : ∀ n, (s.notes n).allocated = false → s.bornNotified n = false
+  min : ∀ n, s.published n = true → (s.notes n).expiry = s.pathMin n
 
 theorem InvX.init : InvX Note.init := by
-  refine ⟨?_, ?_, ?_⟩ <;> simp [Note.init, XClaim]
+  refine ⟨?_, ?_⟩ <;> simp [Note.init, XClaim]
 
 /-- `bornNotified` of the note a thread is creating is not changed by other threads. -/
 theorem born_other {s s' : State} {e : Event} (hA : InvA s) (hs : step s e = .ok s')
@@ -61,13 +60,12 @@ theorem born_other {s s' : State} {e : Event} (hA : InvA s) (hs : step s e = .ok
 
 theorem NewX.other {s s' : State} {e : Event} (hA : InvA s) (hs : step s e = .ok s')
     {t : Tid} {n : NoteId} {par : Option NoteId} {dl : Dl}
-    (hc : (s.pc t).creating = some n) (ht : e.actor ≠ some t) (h : NewX s n par dl) :
+    (hc : (s.pc t).creating = some n) (_ht : e.actor ≠ some t) (h : NewX s n par dl) :
     NewX s' n par dl := by
   have hst := step_stable hs
-  obtain ⟨h1, h2, h3⟩ := h
+  obtain ⟨h1, h3⟩ := h
   have hn := (hA.creating t n hc).1
-  refine ⟨?_, by rw [born_other hA hs hc ht]; exact h2,
-    fun p hp => ⟨hst.published p (h3 p hp).1, hst.alloc p (h3 p hp).2⟩⟩
+  refine ⟨?_, fun p hp => ⟨hst.published p (h3 p hp).1, hst.alloc p (h3 p hp).2⟩⟩
   rw [(hst.ghost n hn).2.2, h1]
   cases par with
   | none => rfl
@@ -79,7 +77,7 @@ theorem DoneX.other {s s' : State} {e : Event} (hA : InvA s) (hs : step s e = .o
   have hst := step_stable hs
   have hn := (hA.creating t n hc).1
   unfold DoneX
-  rw [born_other hA hs hc ht, expiry_other hA hs hc ht, (hst.ghost n hn).2.2]
+  rw [expiry_other hA hs hc ht, (hst.ghost n hn).2.2]
   exact h
 
 theorem XClaim.other {s s' : State} {e : Event} (hA : InvA s) (hX : InvX s)
@@ -115,10 +113,7 @@ theorem XClaim.other {s s' : State} {e : Event} (hA : InvA s) (hX : InvX s)
       | _ => trivial
   | newP pos n p dl =>
     rw [hpc] at hc
-    simp only [XClaim] at hc ⊢
-    split
-    · next he => rw [if_pos he] at hc; exact NewX.other hA hs (by rw [hpc]; simp) ht hc
-    · next he => rw [if_neg he] at hc; exact DoneX.other hA hs (by rw [hpc]; simp) ht hc
+    exact DoneX.other hA hs (by rw [hpc]; simp) ht hc
   | retNew n par =>
     rw [hpc] at hc
     exact DoneX.other hA hs (by rw [hpc]; simp) ht hc
@@ -129,16 +124,15 @@ theorem XClaim.other {s s' : State} {e : Event} (hA : InvA s) (hX : InvX s)
 structure SameX (s s' : State) : Prop where
   alloc : ∀ n, (s'.notes n).allocated = (s.notes n).allocated
   expiry : ∀ n, (s'.notes n).expiry = (s.notes n).expiry
-  born : s'.bornNotified = s.bornNotified
   published : s'.published = s.published
   pathMin : s'.pathMin = s.pathMin
 
 theorem SameX.newX {s s' : State} (h : SameX s s') (n : NoteId) (par : Option NoteId) (dl : Dl) :
     NewX s' n par dl ↔ NewX s n par dl := by
-  cases par <;> simp only [NewX, State.minOf, h.born, h.published, h.pathMin, h.alloc]
+  cases par <;> simp only [NewX, State.minOf, h.published, h.pathMin, h.alloc]
 
 theorem SameX.doneX {s s' : State} (h : SameX s s') (n : NoteId) : DoneX s' n ↔ DoneX s n := by
-  simp only [DoneX, h.born, h.pathMin, h.expiry]
+  simp only [DoneX, h.pathMin, h.expiry]
 
 theorem XClaim.same {s s' : State} (h : SameX s s') (pc : PC) : XClaim s' pc ↔ XClaim s pc := by
   cases pc with
@@ -152,51 +146,58 @@ theorem XClaim.same {s s' : State} (h : SameX s s') (pc : PC) : XClaim s' pc ↔
     cases hk : top.k with
     | ofApi => simp only [XClaim, NKX, hk]
     | ofDeadline dk => cases dk <;> simp only [XClaim, NKX, DKX, hk, h.newX]
-  | newP pos n p dl => simp only [XClaim, h.newX, h.doneX]
+  | newP pos n p dl => simp only [XClaim, h.doneX]
   | retNew n par => simp only [XClaim, h.doneX]
   | retExpiry n => simp only [XClaim, h.published]
   | _ => simp only [XClaim]
 
-theorem XClaim.afterDeadlinePc {s : State} {t : Tid} (hN : InvN s) {pos : DPos} {n : NoteId}
-    {nt nt0 : Dl} {dk : DK} (hpc : s.pc t = .dl pos n nt0 dk) (h : DKX s n dk) :
+/-- `nsync_note_new` settles the expiry time: the minimum of the own deadline and the expiry time
+    of the (published) parent, which is the parent's path minimum. -/
+theorem DoneX.newExpiry {s : State} (hX : InvX s) {t : Tid} {n : NoteId} {nt : Dl}
+    {par : Option NoteId} {dl : Dl} (hexp : (s.notes n).expiry = dl) (h : NewX s n par dl) :
+    DoneX (afterDeadline s t n nt (.newSelf par dl)) n := by
+  unfold DoneX
+  rw [afterDeadline_f_expiry, afterDeadline_pathMin, h.1]
+  cases par with
+  | none => simpa [State.minOf] using hexp
+  | some p =>
+    simp only [newExpiryVal_newSelf_some, if_true, State.minOf]
+    rw [hX.min p (h.2 p rfl).1]
+
+theorem XClaim.afterDeadlinePc {s : State} {t : Tid} (hN : InvN s) (hX : InvX s) {pos : DPos}
+    {n : NoteId} {nt nt0 : Dl} {dk : DK} (hpc : s.pc t = .dl pos n nt0 dk) (h : DKX s n dk) :
     XClaim (afterDeadline s t n nt dk) (Note.afterDeadlinePc n nt dk) := by
   cases dk with
   | newSelf par dl =>
     have hcN := hN.claim t
     rw [hpc] at hcN
-    have hexp := hcN.2.1.2 par dl rfl
+    have hd := DoneX.newExpiry hX (nt := nt) (t := t) (hcN.2.1.2 par dl rfl) h
     simp only [Note.afterDeadlinePc]
     split
-    · next hp =>
-      have hsame : SameX s (afterDeadline s t n nt (.newSelf par dl)) :=
-        ⟨by simp, by simp, by simp [bornNow, hp], by simp, by simp⟩
-      rw [XClaim.same hsame]
-      cases par with
-      | none =>
-        right
-        rw [hexp, h.1]; rfl
-      | some p => exact h
-    · next hp =>
-      left
-      simp [bornNow, hp]
+    · cases par with
+      | none => exact hd
+      | some p => exact hd
+    · exact hd
   | isNotified => trivial
   | notifyApi => simp only [Note.afterDeadlinePc]; split <;> trivial
   | ready1 wdl => simp only [Note.afterDeadlinePc]; split <;> trivial
   | ready2 r wdl => simp only [Note.afterDeadlinePc]; split <;> trivial
   | dequeue r wdl => trivial
 
-theorem XClaim.afterNotifyPc {s : State} {t : Tid} (hN : InvN s) {pos : NPos} {n : NoteId}
-    {par : Option NoteId} {nk : NK} (hpc : s.pc t = .nfy pos n par nk) (h : NKX s n nk) :
-    XClaim (afterNotify s t n nk) (Note.afterNotifyPc n nk) := by
+theorem XClaim.afterNotifyPc {s : State} {t : Tid} (hN : InvN s) (hX : InvX s) {pos : NPos}
+    {n : NoteId} {par : Option NoteId} {nk : NK} (hpc : s.pc t = .nfy pos n par nk)
+    (h : NKX s n nk) : XClaim (afterNotify s t n nk) (Note.afterNotifyPc n nk) := by
   cases nk with
   | ofApi => trivial
   | ofDeadline dk =>
     cases dk with
     | newSelf par' dl =>
+      have hcN := hN.claim t
+      rw [hpc] at hcN
+      have hd := DoneX.newExpiry hX (nt := some 0) (t := t) (hcN.2.1.2 par' dl rfl) h
       simp only [afterNotify, Note.afterNotifyPc, Note.afterDeadlinePc]
       rw [if_neg (by simp [Dl.pos])]
-      left
-      simp [bornNow, Dl.pos]
+      exact hd
     | isNotified => trivial
     | notifyApi =>
       simp only [afterNotify, Note.afterNotifyPc, Note.afterDeadlinePc]; split <;> trivial
